@@ -272,6 +272,23 @@ def run(ctx, model_ok):
                 checks.append(("slice-len", ("slice-len", t, valid, j - i), src, want, "0" if valid else "103"))
     for i, (s, o) in enumerate(effect_scripts()):
         checks.append(("interp-effects", ("effects", i), s, o, "103" if "${1}" in s else "0"))
+    # raw line breaks and control characters inside literals, run through the command line itself (the file is read by the
+    # driver, not by the batch hook): every character of the literal is kept as it is
+    raw_cases = []
+    for body in ["a\r\nb", "\r\n", "x\ry", "tab\there", "l1\nl2\r\nl3", "é\r\n€", "\r", "a\x0bb", "end\r\n"]:
+        val = body
+        n = len(val.encode("utf-8"))
+        src = (f's := "{body}"\nprint(s->len())\nfor [i, c] in s {{\n    if c == "\\r" {{\n        print("CR at " + $"${{i->type()}}")\n    }}\n}}\n'
+               f'print(s == "{body.replace(chr(13), chr(92) + "r").replace(chr(10), chr(92) + "n")}")\nx := "v"\nprint($"<{body}${{x}}>"->len())\n')
+        want = f"{n}\n" + "CR at int\n" * val.count("\r") + "true\n" + f"{n + 3}\n"
+        raw_cases.append((src, want))
+    for (src, want), r in zip(raw_cases, core.cli_batch([c[0] for c in raw_cases])):
+        ctx.nontrivial(("raw-control", src[:20]))
+        ctx.count("raw-control:cli", 1)
+        if (r["stdout"], r["status"]) != (want, "0"):
+            ctx.violation("C15 (raw control characters in a literal): the literal does not denote its characters one for one",
+                          f"# C15 expect status 0 stdout {want.encode('utf-8').hex()}\n" + src, {"cli": r, "expected_stdout": want})
+            break
     srcs = [c[2] for c in checks]
     impl, dis = tie.run(ctx, srcs, "strings", model_ok, project=tie.proj_full)
     bad = []
